@@ -8,11 +8,13 @@ CONSTANTS Tier
 R1Body == Seq2(Str(<<a>>), Str(<<b>>))           \* can fail after consuming
 R2Body == Star(Str(<<a>>))                       \* always succeeds
 
-Leaves == { Str(<<a>>), Str(<<b>>), Str(<<a, b>>), Str(<<>>), StrI(<<a>>),
+\* ("a."i: a case-insensitive literal is still a literal - its characters are not a regular expression)
+Leaves == { Str(<<a>>), Str(<<b>>), Str(<<a, b>>), Str(<<>>), StrI(<<a>>), StrI(<<a, 46>>),
             APlus, AStar, BorAB, FailE, Back(1), PyInt(7), Ref("R1"), Ref("R2") }
 
 (* bytes mode: byte literals, byte strings, byte regexes (the same abstract syntax; the text is a bytes object) *)
-LeavesB == { <<"byte", a>>, <<"byte", b>>, Str(<<a>>), Str(<<a, b>>), Str(<<>>), APlus, AStar, BorAB, FailE, Ref("R1"), Ref("R2") }
+\* (0x00: the byte whose value is falsy in Python - never present in these texts, so it never matches)
+LeavesB == { <<"byte", a>>, <<"byte", b>>, <<"byte", 0>>, Str(<<a>>), Str(<<a, b>>), Str(<<>>), APlus, AStar, BorAB, FailE, Ref("R1"), Ref("R2") }
 
 SmallLeaves == { Str(<<a>>), Str(<<a, b>>), AStar, Ref("R1"), BorAB }
 
